@@ -541,131 +541,139 @@ mod v_wire_roundtrip {
     // Lengths are concrete per harness: a copy of symbolic length into the packet buffer makes CBMC forget the
     // (concrete) message-type byte, and Repr::parse then explores the NDISC/MLD parsers as well (out of memory).
 
-    fn icmpv6_echo_rt<const REPLY: bool, const DL: usize>() {
-        let data: [u8; DL] = kani::any();
-        let ident: u16 = kani::any();
-        let seq_no: u16 = kani::any();
-        let (src, dst) = (any_v6(), any_v6());
-        let repr = if REPLY { Icmpv6Repr::EchoReply { ident, seq_no, data: &data[..] } } else { Icmpv6Repr::EchoRequest { ident, seq_no, data: &data[..] } };
-        let n = repr.buffer_len();
-        assert!(n == 8 + DL, "prop:c06_parse_of_emit_is_identity");
-        let mut b1 = [0u8; 16];
-        let mut b2: [u8; 16] = kani::any();
-        repr.emit(&src, &dst, &mut Icmpv6Packet::new_unchecked(&mut b1[..8 + DL]), &caps());
-        repr.emit(&src, &dst, &mut Icmpv6Packet::new_unchecked(&mut b2[..8 + DL]), &caps());
-        indep!(b1, b2, 8 + DL);
-        let p = Icmpv6Packet::new_checked(&b1[..8 + DL]);
-        assert!(p.is_ok(), "prop:c06_emitted_packet_passes_new_checked");
-        match Icmpv6Repr::parse(&src, &dst, &p.unwrap(), &caps()) {
-            Ok(Icmpv6Repr::EchoReply { ident: i, seq_no: s, data: d }) => {
-                assert!(REPLY && i == ident && s == seq_no, "prop:c06_parse_of_emit_is_identity");
-                same_bytes!(d, data, DL, "prop:c06_parse_of_emit_is_identity");
-                kani::cover!(i == 0xffff, "echo reply parsed back");
+    macro_rules! icmpv6_echo_rt {
+        ($reply:expr, $dl:expr) => {{
+            const REPLY: bool = $reply;
+            const DL: usize = $dl;
+            let data: [u8; DL] = kani::any();
+            let ident: u16 = kani::any();
+            let seq_no: u16 = kani::any();
+            let (src, dst) = (any_v6(), any_v6());
+            let repr = if REPLY { Icmpv6Repr::EchoReply { ident, seq_no, data: &data[..] } } else { Icmpv6Repr::EchoRequest { ident, seq_no, data: &data[..] } };
+            let n = repr.buffer_len();
+            assert!(n == 8 + DL, "prop:c06_parse_of_emit_is_identity");
+            let mut b1 = [0u8; 16];
+            let mut b2: [u8; 16] = kani::any();
+            repr.emit(&src, &dst, &mut Icmpv6Packet::new_unchecked(&mut b1[..8 + DL]), &caps());
+            repr.emit(&src, &dst, &mut Icmpv6Packet::new_unchecked(&mut b2[..8 + DL]), &caps());
+            indep!(b1, b2, 8 + DL);
+            let p = Icmpv6Packet::new_checked(&b1[..8 + DL]);
+            assert!(p.is_ok(), "prop:c06_emitted_packet_passes_new_checked");
+            match Icmpv6Repr::parse(&src, &dst, &p.unwrap(), &caps()) {
+                Ok(Icmpv6Repr::EchoReply { ident: i, seq_no: s, data: d }) => {
+                    assert!(REPLY && i == ident && s == seq_no, "prop:c06_parse_of_emit_is_identity");
+                    same_bytes!(d, data, DL, "prop:c06_parse_of_emit_is_identity");
+                    kani::cover!(i == 0xffff, "echo reply parsed back");
+                }
+                Ok(Icmpv6Repr::EchoRequest { ident: i, seq_no: s, data: d }) => {
+                    assert!(!REPLY && i == ident && s == seq_no, "prop:c06_parse_of_emit_is_identity");
+                    same_bytes!(d, data, DL, "prop:c06_parse_of_emit_is_identity");
+                    kani::cover!(i == 0xffff, "echo request parsed back");
+                }
+                _ => assert!(false, "prop:c06_parse_of_emit_is_identity"),
             }
-            Ok(Icmpv6Repr::EchoRequest { ident: i, seq_no: s, data: d }) => {
-                assert!(!REPLY && i == ident && s == seq_no, "prop:c06_parse_of_emit_is_identity");
-                same_bytes!(d, data, DL, "prop:c06_parse_of_emit_is_identity");
-                kani::cover!(i == 0xffff, "echo request parsed back");
-            }
-            _ => assert!(false, "prop:c06_parse_of_emit_is_identity"),
-        }
+        }};
     }
 
     // @harness props=C06 cfg=KW tier=q to=300 mem=4 unwind=20 opts=nomem covers=1 funcs=wire::icmpv6::Repr::emit;wire::icmpv6::Repr::parse;wire::icmpv6::Repr::buffer_len bounds=echo_request;_8_data_bytes
     #[kani::proof]
     pub(crate) fn rt_icmpv6_echo_request() {
-        icmpv6_echo_rt::<false, 8>()
+        icmpv6_echo_rt!(false, 8);
     }
 
     // @harness props=C06 cfg=KW tier=q to=300 mem=4 unwind=20 opts=nomem covers=1 funcs=wire::icmpv6::Repr::emit;wire::icmpv6::Repr::parse;wire::icmpv6::Repr::buffer_len bounds=echo_reply;_no_data
     #[kani::proof]
     pub(crate) fn rt_icmpv6_echo_reply_empty() {
-        icmpv6_echo_rt::<true, 0>()
+        icmpv6_echo_rt!(true, 0);
     }
 
     // @harness props=C06 cfg=KW tier=t to=300 mem=4 unwind=20 opts=nomem covers=1 funcs=wire::icmpv6::Repr::emit;wire::icmpv6::Repr::parse bounds=echo_reply;_5_data_bytes
     #[kani::proof]
     pub(crate) fn rt_icmpv6_echo_reply() {
-        icmpv6_echo_rt::<true, 5>()
+        icmpv6_echo_rt!(true, 5);
     }
 
     /// KIND: 0 DstUnreachable, 1 PktTooBig, 2 TimeExceeded, 3 ParamProblem; DL quoted payload bytes
-    fn icmpv6_error_rt<const KIND: u8, const DL: usize>() {
-        let data: [u8; DL] = kani::any();
-        let (src, dst) = (any_v6(), any_v6());
-        // the embedded header's payload_len is an independent 16-bit field (the quoted payload may be cut)
-        let header = any_ipv6_repr(65535);
-        let code: u8 = kani::any();
-        let word: u32 = kani::any();
-        let repr = match KIND {
-            0 => Icmpv6Repr::DstUnreachable { reason: Icmpv6DstUnreachable::from(code), header, data: &data[..] },
-            1 => Icmpv6Repr::PktTooBig { mtu: word, header, data: &data[..] },
-            2 => Icmpv6Repr::TimeExceeded { reason: Icmpv6TimeExceeded::from(code), header, data: &data[..] },
-            _ => Icmpv6Repr::ParamProblem { reason: Icmpv6ParamProblem::from(code), pointer: word, header, data: &data[..] },
-        };
-        let n = repr.buffer_len();
-        assert!(n == 48 + DL, "prop:c06_parse_of_emit_is_identity");
-        let mut b1 = [0u8; 56];
-        let mut b2: [u8; 56] = kani::any();
-        repr.emit(&src, &dst, &mut Icmpv6Packet::new_unchecked(&mut b1[..48 + DL]), &caps());
-        repr.emit(&src, &dst, &mut Icmpv6Packet::new_unchecked(&mut b2[..48 + DL]), &caps());
-        if KIND == 0 || KIND == 2 {
-            // bytes 4..8 ("unused"): finding_icmpv6_error_unused_stale
-            indep!(b1, b2, 48 + DL, k => k < 4 || k >= 8);
-        } else {
-            indep!(b1, b2, 48 + DL);
-        }
-        let p = Icmpv6Packet::new_checked(&b1[..48 + DL]);
-        assert!(p.is_ok(), "prop:c06_emitted_packet_passes_new_checked");
-        let (h, d) = match Icmpv6Repr::parse(&src, &dst, &p.unwrap(), &caps()) {
-            Ok(Icmpv6Repr::DstUnreachable { reason, header: h, data: d }) => {
-                assert!(KIND == 0 && reason == Icmpv6DstUnreachable::from(code), "prop:c06_parse_of_emit_is_identity");
-                (h, d)
+    macro_rules! icmpv6_error_rt {
+        ($kind:expr, $dl:expr) => {{
+            const KIND: u8 = $kind;
+            const DL: usize = $dl;
+            let data: [u8; DL] = kani::any();
+            let (src, dst) = (any_v6(), any_v6());
+            // the embedded header's payload_len is an independent 16-bit field (the quoted payload may be cut)
+            let header = any_ipv6_repr(65535);
+            let code: u8 = kani::any();
+            let word: u32 = kani::any();
+            let repr = match KIND {
+                0 => Icmpv6Repr::DstUnreachable { reason: Icmpv6DstUnreachable::from(code), header, data: &data[..] },
+                1 => Icmpv6Repr::PktTooBig { mtu: word, header, data: &data[..] },
+                2 => Icmpv6Repr::TimeExceeded { reason: Icmpv6TimeExceeded::from(code), header, data: &data[..] },
+                _ => Icmpv6Repr::ParamProblem { reason: Icmpv6ParamProblem::from(code), pointer: word, header, data: &data[..] },
+            };
+            let n = repr.buffer_len();
+            assert!(n == 48 + DL, "prop:c06_parse_of_emit_is_identity");
+            let mut b1 = [0u8; 56];
+            let mut b2: [u8; 56] = kani::any();
+            repr.emit(&src, &dst, &mut Icmpv6Packet::new_unchecked(&mut b1[..48 + DL]), &caps());
+            repr.emit(&src, &dst, &mut Icmpv6Packet::new_unchecked(&mut b2[..48 + DL]), &caps());
+            if KIND == 0 || KIND == 2 {
+                // bytes 4..8 ("unused"): finding_icmpv6_error_unused_stale
+                indep!(b1, b2, 48 + DL, k => k < 4 || k >= 8);
+            } else {
+                indep!(b1, b2, 48 + DL);
             }
-            Ok(Icmpv6Repr::PktTooBig { mtu, header: h, data: d }) => {
-                assert!(KIND == 1 && mtu == word, "prop:c06_parse_of_emit_is_identity");
-                (h, d)
-            }
-            Ok(Icmpv6Repr::TimeExceeded { reason, header: h, data: d }) => {
-                assert!(KIND == 2 && reason == Icmpv6TimeExceeded::from(code), "prop:c06_parse_of_emit_is_identity");
-                (h, d)
-            }
-            Ok(Icmpv6Repr::ParamProblem { reason, pointer, header: h, data: d }) => {
-                assert!(KIND == 3 && reason == Icmpv6ParamProblem::from(code) && pointer == word, "prop:c06_parse_of_emit_is_identity");
-                (h, d)
-            }
-            _ => {
-                assert!(false, "prop:c06_parse_of_emit_is_identity");
-                return;
-            }
-        };
-        assert!(h == header, "prop:c06_parse_of_emit_is_identity");
-        same_bytes!(d, data, DL, "prop:c06_parse_of_emit_is_identity");
-        kani::cover!(h.payload_len == 1280 && code == 4, "error about a 1280-byte payload parsed back");
+            let p = Icmpv6Packet::new_checked(&b1[..48 + DL]);
+            assert!(p.is_ok(), "prop:c06_emitted_packet_passes_new_checked");
+            let (h, d) = match Icmpv6Repr::parse(&src, &dst, &p.unwrap(), &caps()) {
+                Ok(Icmpv6Repr::DstUnreachable { reason, header: h, data: d }) => {
+                    assert!(KIND == 0 && reason == Icmpv6DstUnreachable::from(code), "prop:c06_parse_of_emit_is_identity");
+                    (h, d)
+                }
+                Ok(Icmpv6Repr::PktTooBig { mtu, header: h, data: d }) => {
+                    assert!(KIND == 1 && mtu == word, "prop:c06_parse_of_emit_is_identity");
+                    (h, d)
+                }
+                Ok(Icmpv6Repr::TimeExceeded { reason, header: h, data: d }) => {
+                    assert!(KIND == 2 && reason == Icmpv6TimeExceeded::from(code), "prop:c06_parse_of_emit_is_identity");
+                    (h, d)
+                }
+                Ok(Icmpv6Repr::ParamProblem { reason, pointer, header: h, data: d }) => {
+                    assert!(KIND == 3 && reason == Icmpv6ParamProblem::from(code) && pointer == word, "prop:c06_parse_of_emit_is_identity");
+                    (h, d)
+                }
+                _ => {
+                    assert!(false, "prop:c06_parse_of_emit_is_identity");
+                    return;
+                }
+            };
+            assert!(h == header, "prop:c06_parse_of_emit_is_identity");
+            same_bytes!(d, data, DL, "prop:c06_parse_of_emit_is_identity");
+            kani::cover!(h.payload_len == 1280 && code == 4, "error about a 1280-byte payload parsed back");
+        }};
     }
 
     // @harness props=C06 cfg=KW tier=q to=300 mem=4 unwind=20 opts=nomem covers=1 funcs=wire::icmpv6::Repr::emit;wire::icmpv6::Repr::parse;wire::icmpv6::Repr::buffer_len bounds=dst_unreachable;_embedded_header_plus_8_bytes;_unused_bytes_4..8_excluded_from_stale_check
     #[kani::proof]
     pub(crate) fn rt_icmpv6_dst_unreachable() {
-        icmpv6_error_rt::<0, 8>()
+        icmpv6_error_rt!(0, 8);
     }
 
     // @harness props=C06 cfg=KW tier=t to=300 mem=4 unwind=20 opts=nomem covers=1 funcs=wire::icmpv6::Repr::emit;wire::icmpv6::Repr::parse bounds=pkt_too_big;_embedded_header_plus_8_bytes
     #[kani::proof]
     pub(crate) fn rt_icmpv6_pkt_too_big() {
-        icmpv6_error_rt::<1, 8>()
+        icmpv6_error_rt!(1, 8);
     }
 
     // @harness props=C06 cfg=KW tier=t to=300 mem=4 unwind=20 opts=nomem covers=1 funcs=wire::icmpv6::Repr::emit;wire::icmpv6::Repr::parse bounds=time_exceeded;_embedded_header_only;_unused_bytes_4..8_excluded_from_stale_check
     #[kani::proof]
     pub(crate) fn rt_icmpv6_time_exceeded() {
-        icmpv6_error_rt::<2, 0>()
+        icmpv6_error_rt!(2, 0);
     }
 
     // @harness props=C06 cfg=KW tier=q to=300 mem=4 unwind=20 opts=nomem covers=1 funcs=wire::icmpv6::Repr::emit;wire::icmpv6::Repr::parse bounds=param_problem;_embedded_header_plus_3_bytes
     #[kani::proof]
     pub(crate) fn rt_icmpv6_param_problem() {
-        icmpv6_error_rt::<3, 3>()
+        icmpv6_error_rt!(3, 3);
     }
 
     // DstUnreachable/TimeExceeded: the 4 "unused" bytes after the checksum are never written
@@ -684,11 +692,12 @@ mod v_wire_roundtrip {
         assert!(b1[k] == b2[k], "prop:c06_emit_independent_of_prior_buffer_contents");
     }
 
-    // @harness props=C06 cfg=KW tier=q to=600 mem=6 unwind=20 opts=nomem covers=1 funcs=wire::icmpv6::Repr::parse;wire::icmpv6::Repr::emit bounds=arbitrary_16_bytes_with_an_echo_type
+    // @harness props=C06 cfg=KW tier=q to=600 mem=6 unwind=20 opts=nomem covers=1 funcs=wire::icmpv6::Repr::parse;wire::icmpv6::Repr::emit bounds=arbitrary_16_bytes_with_type_echo_request
     #[kani::proof]
     pub(crate) fn reparse_icmpv6_echo() {
-        let bytes: [u8; 16] = kani::any();
-        kani::assume(bytes[0] == 128 || bytes[0] == 129);
+        let mut bytes: [u8; 16] = kani::any();
+        // concrete message type: a symbolic one sends symbolic execution through the NDISC and MLD parsers
+        bytes[0] = 128;
         let (src, dst) = (any_v6(), any_v6());
         if let Ok(p) = Icmpv6Packet::new_checked(&bytes[..]) {
             if let Ok(r) = Icmpv6Repr::parse(&src, &dst, &p, &caps()) {
@@ -700,11 +709,11 @@ mod v_wire_roundtrip {
                     (Icmpv6Repr::EchoRequest { ident, seq_no, data }, Ok(Icmpv6Repr::EchoRequest { ident: i, seq_no: s, data: d })) => {
                         assert!(ident == i && seq_no == s, "prop:c06_reparse_of_parsed_is_identity");
                         same_bytes!(d, data, 8, "prop:c06_reparse_of_parsed_is_identity");
+                        kani::cover!(ident == 7, "echo request re-parsed");
                     }
                     (Icmpv6Repr::EchoReply { ident, seq_no, data }, Ok(Icmpv6Repr::EchoReply { ident: i, seq_no: s, data: d })) => {
                         assert!(ident == i && seq_no == s, "prop:c06_reparse_of_parsed_is_identity");
                         same_bytes!(d, data, 8, "prop:c06_reparse_of_parsed_is_identity");
-                        kani::cover!(ident == 7, "echo reply re-parsed");
                     }
                     _ => assert!(false, "prop:c06_reparse_of_parsed_is_identity"),
                 }
